@@ -3,7 +3,7 @@
    data.get_scores returns (the common valid cases of each input; C01-C15 cover that part), outputs are
    the coordinates handed to matplotlib.  No proofs here. *)
 From Coq Require Import ZArith List Bool.
-From VF Require Import Base.Num Base.Vec Base.Event Gen.Gen_interval.
+From VF Require Import Base.Num Base.Vec Base.Event Gen.Gen_interval Gen.Gen_contingency.
 Import ListNotations.
 
 Section D.
@@ -143,6 +143,31 @@ Definition fill_polygon (x lower upper : vec) : list (T * T) :=
   keep lower ++ rev (keep upper).
 (* which columns of the obsfcst table bound the i-th shaded band of input f (F inputs, nq quantiles) *)
 Definition obsfcst_band (F f nq i : nat) : nat * nat := (F + f + 1 + i * F, F + f + 1 + F * (nq - 1 - i))%nat.
+
+(* ---- freq: share of the values inside each interval (np.nanmean of the masked membership) ------------------- *)
+Definition freq_line (ivs : list (interval Ops)) (v : vec) : vec :=
+  map (fun iv => mamean Ops (map (iv_within Ops iv) v)) ivs.
+
+(* ---- marginal: mean forecast probability of the event and observed frequency, per threshold ----------------- *)
+Definition marginal_point (ev01 p : vec) : T * T := (vmean Ops p, vmean Ops ev01).
+
+(* ---- error decomposition: systematic error (mean obs - fcst) against unsystematic error sqrt(mse - bias^2) ------ *)
+Definition error_point (obs fcst : vec) : T * T :=
+  let e := vmap2 Ops (n_sub Ops) obs fcst in
+  let s := vmean Ops e in
+  let mse := vmean Ops (map (sq Ops) e) in
+  (n_sqrt Ops (n_sub Ops (sq Ops (n_sqrt Ops mse)) (sq Ops s)), s).
+
+(* ---- Taylor diagram: forecast standard deviation at the angle arccos(correlation) ----------------------------------- *)
+Definition taylor_point (normalise : bool) (obs fcst : vec) : T * T :=
+  let r := pearson Ops obs fcst in
+  let sd := if normalise then n_div Ops (vstd Ops fcst) (vstd Ops obs) else vstd Ops fcst in
+  (n_mul Ops sd r, n_mul Ops sd (n_sqrt Ops (n_sub Ops (lit 1) (sq Ops r)))).
+
+(* ---- performance diagram: success ratio (1 - false alarm ratio) against probability of detection (GENERATED table and formulas) ---- *)
+Definition performance_point (iv : interval Ops) (obs fcst : vec) : T * T :=
+  let '(a, b, c, d) := compute_abcd Ops iv iv obs fcst in
+  (n_sub Ops (lit 1) (contingency_finish Ops (Far_abcd Ops a b c d)), contingency_finish Ops (Hit_abcd Ops a b c d)).
 
 (* ---- time series / meteogram: mean over locations (and times) ---------------------------------------------- *)
 Definition row_nanmeans (rows : list vec) : vec := map nanmean rows.
